@@ -299,6 +299,11 @@ type fpath struct {
 // Return/Panic, at an instruction for which stop() holds, or when it would
 // re-enter a block already on the path. done(path-so-far) may cut a path early.
 func enumPaths(start ssa.Instruction, interesting, stop func(ssa.Instruction) bool, done func(*fpath) bool, max int) ([]fpath, bool) {
+	return enumPathsAt(start.Block(), indexOf(start)+1, interesting, stop, done, max)
+}
+
+// enumPathsAt starts at instruction idx of block b0 (inclusive).
+func enumPathsAt(b0 *ssa.BasicBlock, idx0 int, interesting, stop func(ssa.Instruction) bool, done func(*fpath) bool, max int) ([]fpath, bool) {
 	var out []fpath
 	overflow := false
 	var walk func(b *ssa.BasicBlock, idx int, cur fpath, on map[*ssa.BasicBlock]bool)
@@ -360,8 +365,8 @@ func enumPaths(start ssa.Instruction, interesting, stop func(ssa.Instruction) bo
 			walk(s, 0, nc, on2)
 		}
 	}
-	on := map[*ssa.BasicBlock]bool{start.Block(): true}
-	walk(start.Block(), indexOf(start)+1, fpath{}, on)
+	on := map[*ssa.BasicBlock]bool{b0: true}
+	walk(b0, idx0, fpath{}, on)
 	return out, !overflow
 }
 
